@@ -79,7 +79,7 @@ impl Wrap {
     pub fn record_op(&mut self, op: String, pre: &str) {
         let line = format!("{} ## {}", pre, self.fmt.state(&self.inner));
         let mut r = self.recorder.rec.lock().unwrap();
-        r.link.push(format!("B {op} ## {}", peers_field(&line)));
+        r.link.push(format!("B {op} ## {} ##  ##  ## {}", peers_field(&line), srv_field(&line)));
         r.ops.push(format!("n {op}"));
         r.imp.push(line);
     }
@@ -96,7 +96,7 @@ impl Wrap {
         if head.is_empty() && r.ops.last().map_or(false, |o| o.starts_with("n drain")) && r.imp.last() == Some(&line) {
             return;
         }
-        r.link.push(format!("B drain {} ## {} ## {}", choices(&line), peers_field(&line), sends_of(&line)));
+        r.link.push(format!("B drain {} ## {} ## {} ## {} ## {}", choices(&line), peers_field(&line), sends_of(&line), blks_of(&line), srv_field(&line)));
         r.ops.push(format!("n drain {}", choices(&line)));
         r.imp.push(line);
     }
@@ -266,6 +266,17 @@ fn peers_field(line: &str) -> String {
     line.split(" ## ").nth(1).unwrap_or("").split('|').find(|f| f.starts_with("P=")).unwrap_or("P=").to_string()
 }
 
+/// the server half's recorded peers (`S=…`) of a state snapshot
+fn srv_field(line: &str) -> String {
+    line.split(" ## ").nth(1).unwrap_or("").split('|').find(|f| f.starts_with("S=")).unwrap_or("S=").to_string()
+}
+
+/// the `blk:…` tokens (blocks dispatched to peers) of a drain's output line
+fn blks_of(line: &str) -> String {
+    let v: Vec<&str> = line.split(" ## ").next().unwrap_or("").split(' ').filter(|t| t.starts_with("blk:")).collect();
+    v.join(" ")
+}
+
 /// the `send:…` tokens (wantlists handed to connections) of a drain's output line
 fn sends_of(line: &str) -> String {
     let v: Vec<&str> = line.split(" ## ").next().unwrap_or("").split(' ').filter(|t| t.starts_with("send:")).collect();
@@ -392,7 +403,7 @@ impl ConnectionHandler for WrapHandler {
                 self.log(format!("in send-wantlist #{} full={} entries={}", self.seq, w.full as u8, toks.join(",")));
             }
             ToHandlerEvent::QueueOutgoingMessages(bs) => {
-                self.log(format!("in queue-blocks {}", bs.len()));
+                self.log(format!("in queue-blocks {} ids={}", bs.len(), self.fmt.show_blocks(bs, true)));
                 self.log(format!("x queue {}", bs.iter().map(|(p, d)| format!("{}:{}", p.len(), d.len())).collect::<Vec<_>>().join(",")));
             }
         }
